@@ -727,7 +727,10 @@ where
             }
           } else if let Some(grace_period) = self.shared.stale_while_revalidate {
             // CASE B: Stale Hit
-            if now_nanos < expires_at_nanos + grace_period.as_nanos() as u64 {
+            // (the grace period extends the TTL only: an entry past its idle timeout is gone)
+            if now_nanos < expires_at_nanos + grace_period.as_nanos() as u64
+              && !entry.is_idle_expired(self.shared.time_to_idle)
+            {
               self.trigger_background_load(key);
               Some(entry.value())
             } else {
